@@ -8,6 +8,7 @@ mod c15;
 mod dump;
 mod progen;
 mod godump;
+mod goparse;
 mod c17;
 mod c19;
 mod goscope;
